@@ -301,12 +301,18 @@ func execKV(line string) Result {
 		if op.form == 'R' {
 			restarts++
 			run.audit(st, "before restart")
+			if op.kind == 'G' { // graceful shutdown: what cmd/startup.ShutdownSiglensServer runs for this store, then a new process
+				if err := st.(interface{ shutdown() error }).shutdown(); err != nil {
+					return Result{Out: "harness-error:shutdown:" + err.Error()}
+				}
+				res.Tags = append(res.Tags, "graceful-shutdown")
+			}
 			if err := st.restart(); err != nil {
 				return Result{Out: "harness-error:restart:" + err.Error()}
 			}
 			run.afterRe = true
 			run.audit(st, "after restart")
-			toks = append(toks, "R")
+			toks = append(toks, string(op.kind))
 			continue
 		}
 		tenants[op.t] = true
@@ -448,7 +454,7 @@ func genKV(r *rand.Rand, n int, tier string) []string {
 			bad := []string{
 				"kv " + store, "kv nostore l0", "kv " + store + " l3", "kv " + store + " c0.6=61", "kv " + store + " c0.61=6G", "kv " + store + " c0.61=62=63",
 				"kv " + store + " x0.61", "kv " + store + " l0.61", "kv " + store + " c3.61=62", "kv " + store + " d0", "kv " + store + " c0,61=62",
-				"kv " + store + " C0.61=62", "kv " + store + " c0.6A=62", "kv " + store + " r0.61>62>63", "kv " + store + " RR", "kv " + store + " g0.61 ll0",
+				"kv " + store + " C0.61=62", "kv " + store + " c0.6A=62", "kv " + store + " r0.61>62>63", "kv " + store + " RR", "kv usq G", "kv " + store + " GG", "kv " + store + " g0.61 ll0",
 				"kv " + store + " r0.61>62", "kv " + store + " q0.61=62",
 			}
 			out = append(out, bad[r.Intn(len(bad))])
@@ -522,7 +528,11 @@ func genKVLine(r *rand.Rand, store string) string {
 		k := kvHex(kvPick(r, pool))
 		x := r.Intn(100)
 		if x < pR {
-			ops = append(ops, "R")
+			if store == "alias" && r.Intn(3) == 0 {
+				ops = append(ops, "G")
+			} else {
+				ops = append(ops, "R")
+			}
 			continue
 		}
 		x = r.Intn(100)
@@ -718,6 +728,7 @@ func (s *kvUsq) apply(op kvOp) string {
 // alias ↦ indexes (GetAllAliasesAsMapArray, IsAlias).
 //   c<t>.<index>=<alias> AddAliases      d<t>.<index>=<alias> RemoveAliases     g<t>.<index> GetAliases
 //   l<t> GetAllAliasesAsMapArray         q<t>.<alias> IsAlias
+//   G graceful shutdown (FlushAliasMapToFile, as ShutdownSiglensServer calls it) followed by a restart
 // shadow key: "<index>\x00<alias>" ↦ "1"; readAll merges both read directions: "F"/"M" = seen in the
 // file view / in the memory view.
 type kvAlias struct {
@@ -726,9 +737,14 @@ type kvAlias struct {
 }
 
 func (s *kvAlias) parse(tok string) (kvOp, bool) {
+	if tok == "G" { // graceful shutdown (FlushAliasMapToFile) + restart
+		return kvOp{kind: 'G', form: 'R'}, true
+	}
 	op, ok := kvParseTok(tok)
 	return op, ok && s.accepts(op)
 }
+
+func (s *kvAlias) shutdown() error { return vtable.FlushAliasMapToFile() }
 
 func (s *kvAlias) accepts(op kvOp) bool {
 	switch op.kind {
@@ -1945,7 +1961,7 @@ func (s *kvLookup) apply(op kvOp) string {
 func genLookupLine(r *rand.Rand) string {
 	names := []string{"a", "a.csv", "A.CSV", "a.Csv", "a.csv.gz", "a.gz", "ab", "a b", "ünï", "日本.csv", "x.json", ".csv", "csv", "a.csv.", "a..csv", "q.1", "%2e", "\"q\"", "a.CSV.GZ", "..a"}
 	if r.Intn(10) == 0 {
-		names = append(names, kvLongName(r, "alias"))
+		names = append(names, kvLongName(r, "alias")[:120]) // + ".csv.gz" must stay below NAME_MAX
 	}
 	r.Shuffle(len(names), func(i, j int) { names[i], names[j] = names[j], names[i] })
 	pool := names[:2+r.Intn(5)]
